@@ -88,6 +88,38 @@ theorem single_op_atomic (c : CSt D) (op : COp D)
     · exact Or.inl rfl
     · exact Or.inl rfl
 
+/-- No operation at all is split (as repaired, F20: `insert_many` takes ONE commit decision, after
+    all of its statements): in ANY state, after ANY operation — `insert_many` with any mixture of
+    upserts and new rows, reads and failing operations included — the durable state is what it was
+    before or the new connection state. -/
+theorem every_op_atomic (c : CSt D) (op : COp D) :
+    (cstep c op).dur = c.dur ∨ (cstep c op).dur = (cstep c op).cur := by
+  cases op with
+  | insertMany now b es =>
+    simp only [cstep]
+    cases hok : (Commit.insertMany c now b es).1.isOk with
+    | true =>
+      rw [insertMany_ok _ _ _ _ hok]
+      rcases condCommit_atomic (insertManyMid c now b es)
+        ((es.filter (fun e => e.id.isSome)).length + (es.filter (fun e => e.id.isNone)).length) now with h | h
+      · left; rw [h, insertManyMid]; exact (mid_fields c now b _ _).2.2.2.1
+      · exact Or.inr h
+    | false => rw [insertMany_err _ _ _ _ hok]; exact Or.inl rfl
+  | read now => exact Or.inr rfl
+  | createBucket now b m => exact single_op_atomic c _ (Or.inr rfl)
+  | updateBucket now b u => exact single_op_atomic c _ (Or.inr rfl)
+  | deleteBucket now b => exact single_op_atomic c _ (Or.inr rfl)
+  | insertOne now b e => exact single_op_atomic c _ (Or.inl rfl)
+  | replace now b i e => exact single_op_atomic c _ (Or.inl rfl)
+  | replaceLast now b e => exact single_op_atomic c _ (Or.inl rfl)
+  | delete now b i => exact single_op_atomic c _ (Or.inl rfl)
+
+/-- A crash INSIDE `insert_many` (after any of its statements, before its commit decision) shows
+    none of the call: the durable state is still the one before the call. -/
+theorem insertMany_inside_not_durable (c : CSt D) (now : Int) (b : String) (es : List (Ev D)) :
+    (insertManyMid c now b es).dur = c.dur := by
+  rw [insertManyMid]; exact (mid_fields c now b _ _).2.2.2.1
+
 /-- At most 50 buffered event writes, deletions included: on the lazy store, after any history,
     `pend.length ≤ n ≤ 50`. -/
 theorem pending_bounded (c0 : CSt D) (h0 : Init c0) (hl : c0.lazy = true) (ops : List (COp D)) :
@@ -96,13 +128,22 @@ theorem pending_bounded (c0 : CSt D) (h0 : Init c0) (hl : c0.lazy = true) (ops :
   have := (h0.bnd hl).run ops
   exact ⟨this.2.1, this.2.2, Nat.le_trans this.2.1 this.2.2⟩
 
-/-- Inside `insert_many` (after its upserts and its bulk INSERT, before the final conditional
-    commit) the bound is 50 + the number of rows. -/
+/-- Inside `insert_many` (after its upserts and its bulk INSERT, before the conditional commit) the
+    bound is 50 + the number of events of the call that has not returned yet. -/
 theorem pending_bounded_inside_insertMany (c0 : CSt D) (h0 : Init c0) (hl : c0.lazy = true)
     (ops : List (COp D)) (now : Int) (b : String) (es : List (Ev D)) :
     (insertManyMid (crun c0 ops) now b es).pend.length ≤
-      50 + (es.filter (fun e => e.id.isNone)).length := by
+      50 + es.length := by
+  have hlen : ∀ l : List (Ev D), (l.filter (fun e => e.id.isSome)).length + (l.filter (fun e => e.id.isNone)).length = l.length := by
+    intro l
+    induction l with
+    | nil => rfl
+    | cons e l ih =>
+      cases h : e.id with
+      | none => simp [List.filter_cons, h]; omega
+      | some i => simp [List.filter_cons, h]; omega
   have := ((h0.bnd hl).run ops).mid now b es
+  have := hlen es
   omega
 
 /-- On the auto-committing store every completed operation is durable: in ANY state with
@@ -134,20 +175,22 @@ theorem pending_consistent (c0 : CSt D) (h0 : Init c0) (ops : List (COp D)) :
   rw [hc, hd, e, this, List.append_nil]
 
 
-/-- `insert_many` is NOT atomic on the lazy store (which is why `single_op_atomic` excludes it):
-    after 50 buffered inserts, an `insert_many` of two upserts commits after the first one, so a
-    crash afterwards shows the first upsert without the second. -/
-theorem insertMany_can_split :
-    ∃ (c0 : CSt Nat) (ops : List (COp Nat)) (now : Int) (b : String) (es : List (Ev Nat)),
-      Init c0 ∧ c0.lazy = true ∧
-      (cstep (crun c0 ops) (.insertMany now b es)).dur ≠ (crun c0 ops).dur ∧
-      (cstep (crun c0 ops) (.insertMany now b es)).dur ≠ (cstep (crun c0 ops) (.insertMany now b es)).cur := by
-  refine ⟨Ex.c0, List.replicate 50 (.insertOne 0 "b" (Ex.ev 0)), 0, "b", [Ex.evId 1 7, Ex.evId 1 8],
-    Ex.init_c0, rfl, ?_, ?_⟩
-  · intro h
-    exact absurd (congrArg (fun s => s.events.length) h) (by set_option maxRecDepth 100000 in decide)
-  · intro h
-    exact absurd (congrArg (fun s => s.events.head?) h) (by set_option maxRecDepth 100000 in decide)
+/-- History of the repair F20: BEFORE it `insert_many` ran every upsert as a `replace` with its own
+    conditional commit, so after 50 buffered inserts an `insert_many` of two upserts committed after
+    the first one. With the repaired function the same call leaves all 52 writes durable. -/
+theorem insertMany_no_longer_splits :
+    let c := crun Ex.c0 (List.replicate 50 (.insertOne 0 "b" (Ex.ev 0)) : List (COp Nat))
+    let op : COp Nat := .insertMany 0 "b" [Ex.evId 1 7, Ex.evId 2 8]
+    Init Ex.c0 ∧ c.pend.length = 50 ∧ (cstep c op).pend = [] ∧
+    (cstep c op).dur = (cstep c op).cur ∧
+    ((cstep c op).dur.events.take 2).map (·.data) = [7, 8] := by
+  refine ⟨Ex.init_c0, ?_, ?_, ?_, ?_⟩
+  · set_option maxRecDepth 100000 in decide
+  · set_option maxRecDepth 100000 in decide
+  · exact ((every_op_atomic _ _).resolve_left (by
+      intro h
+      exact absurd (congrArg (fun s => s.events.length) h) (by set_option maxRecDepth 100000 in decide)))
+  · set_option maxRecDepth 100000 in decide
 
 /-! ## non-vacuity: the hypotheses are satisfiable on concrete non-trivial histories -/
 
